@@ -60,6 +60,20 @@ def _act(args, default):
     if not b:
         return default
     k = b.get('kind')
+    if k == 'input':
+        # behaviour is a function of the arguments only (used for history
+        # independence checks): raise / return None / return a digest
+        h = sum(json.dumps(args).encode())
+        m = h % 7
+        if m == 0:
+            raise ValueError('fixture rejects this input in ' + _NAME)
+        if m == 1 and b.get('importerror', True):
+            raise ImportError('fixture lazy import failed in ' + _NAME)
+        if m == 2:
+            return None
+        if _KIND == 'calloutparsers':
+            return json.dumps(['described by ' + _NAME, 'digest %d' % h])
+        return json.dumps({'Fixture': _NAME, 'ArgsDigest': h})
     if k == 'json':
         return json.dumps(b['value'])
     if k == 'text':
@@ -154,7 +168,7 @@ class PluginFixtures:
                 os.makedirs(d, exist_ok=True)
                 open(os.path.join(d, '__init__.py'), 'w').close()
                 with open(os.path.join(d, name + '.py'), 'w') as f:
-                    f.write(FIXTURE_BODY % {'kind': pkg})
+                    f.write(FIXTURE_BODY.replace('%(kind)r', repr(pkg)))
 
     def __enter__(self):
         _run.mods()
